@@ -48,10 +48,10 @@ def evidence_table():
     return "\n".join(out)
 
 def replace(doc, name, body):
-    pat = re.compile(r"(<!-- BEGIN %s -->\n).*?(\n<!-- END %s -->)" % (name, name), re.S)
+    pat = re.compile(r"(<!-- BEGIN %s -->\n)(.*?)(<!-- END %s -->)" % (name, name), re.S)
     if not pat.search(doc):
         return doc
-    return pat.sub(lambda m: m.group(1) + body + m.group(2), doc)
+    return pat.sub(lambda m: m.group(1) + body + "\n" + m.group(3), doc)
 
 p = os.path.join(root, "DESIGN.md")
 doc = open(p).read()
